@@ -237,8 +237,12 @@ def run_model(rec, sh, tier, seed):
             for chunk in ((0,) if tier == "quick" else (0, 1)):
                 for rep in (0, 1):
                     numba.set_parallel_chunksize(chunk)
+                    numba.set_num_threads(7)           # the caller's setting must be restored by every call
                     st, res = call(TT.tomtom, Qs, Ts, n_target_bins=None, reverse_complement=bool(rc), n_jobs=nj)
                     numba.set_parallel_chunksize(0)
+                    if numba.get_num_threads() != 7:
+                        rec.violation("tomtom:num_threads_not_restored", dict(fn="tomtom", n_jobs=nj, expected=7, observed=numba.get_num_threads()))
+                    numba.set_num_threads(16)
                     rec.count("traces_validated_against_impl")
                     case = dict(fn="tomtom", queries=[QUERY_POOL[q] for q in ql], targets=TARGET_SETS[sh["ts"]], reverse_complement=rc, n_jobs=nj, chunksize=chunk)
                     if st != "ok":
@@ -300,6 +304,8 @@ def run_nearest(rec, tier, seed):
         nT = len(Ts)
         for rc in (False, True):
             for hashing in (None, 100):
+                if tier == "quick" and (rc == (hashing is None)) == (tsi == 0):
+                    continue      # quick: each target set meets two of the four (strand mode, hashing) combinations
                 full = [t.numpy() for t in TT.tomtom(pool, Ts, n_target_bins=hashing, reverse_complement=rc, n_jobs=1)]
                 for nn in range(1, nT + 1):
                     for nj in (1, 3):
